@@ -5,7 +5,7 @@ use crate::model::*;
 use crate::mon::Monitor;
 use crate::orc::*;
 use crate::report::*;
-use crate::rng::mix;
+use crate::rng::{mix, Rng};
 use crate::Ctx;
 use serde_json::{json, Value};
 
@@ -30,6 +30,18 @@ pub fn check_parent(run: &mut Run, c: MCell, class: &str) {
             return;
         }
     };
+    // a parent named by an accepted alias (a stray bit below the marker) has the same children
+    if mix(id, 0xa11a5) % 16 == 0 {
+        let mut arng = Rng::stream(id, "C12.alias", 0);
+        if let Some(w) = stray_alias(&mut arng, c) {
+            run.count("parents_also_named_by_an_alias");
+            if let Ok(v) = children(w, None) {
+                if v != kids {
+                    run.violation("C12.alias", json!({"cell": hu(id), "alias": hu(w)}), format!("{} is accepted as an alias of {} but its children are not that cell's children: they cannot all overlap it", hu(w), hu(id)));
+                }
+            }
+        }
+    }
     let ppoly = match cell_polygon(c) {
         Ok(p) => p,
         Err(e) => {
